@@ -12,13 +12,16 @@ import (
 	"github.com/dcaiafa/lox/verifharness/lib/cfgm"
 	"github.com/dcaiafa/lox/verifharness/lib/ev"
 	"github.com/dcaiafa/lox/verifharness/lib/forge"
+	"github.com/dcaiafa/lox/verifharness/lib/lexgen"
+	"github.com/dcaiafa/lox/verifharness/lib/lexm"
 	"github.com/dcaiafa/lox/verifharness/lib/loxb"
 	"github.com/dcaiafa/lox/verifharness/lib/pgo"
 	"pgregory.net/rapid"
 )
 
 type Pkg struct {
-	G        *cfgm.G
+	G        *cfgm.G    `json:",omitempty"` // parser package (with the grammar's single-character lexer)
+	S        *lexm.Spec `json:",omitempty"` // lexer-only package with modes and actions
 	OnBounds bool
 	HasErr   bool
 }
@@ -27,7 +30,7 @@ type Task struct {
 	Pkg   int
 	Kind  string // parse | lex
 	Toks  []int  `json:",omitempty"`
-	Text  string `json:",omitempty"`
+	Text  []byte `json:",omitempty"`
 	Limit int    `json:",omitempty"`
 }
 
@@ -56,7 +59,7 @@ func NewSM() interface {
 }
 `
 
-func driverMain(n int) string {
+func driverMain(n int, lexOnly map[int]bool) string {
 	var d strings.Builder
 	d.WriteString(`package main
 
@@ -80,7 +83,7 @@ type task struct {
 	Pkg   int
 	Kind  string
 	Toks  []int
-	Text  string
+	Text  []byte
 	Limit int
 }
 
@@ -96,8 +99,7 @@ type sm interface {
 	Reset()
 }
 
-func lex(mk func() sm, text string) string {
-	in := []byte(text)
+func lex(mk func() sm, in []byte) string {
 	fset := gotoken.NewFileSet()
 	file := fset.AddFile("in", -1, len(in))
 	lx := simplelexer.New(simplelexer.Config{StateMachine: mk(), File: file, Input: in})
@@ -119,6 +121,12 @@ func run(t task) string {
 	switch t.Pkg {
 `)
 	for i := 0; i < n; i++ {
+		if lexOnly[i] {
+			fmt.Fprintf(&d, `	case %d:
+		return lex(func() sm { return c%04d.NewSM() }, t.Text)
+`, i, i)
+			continue
+		}
 		fmt.Fprintf(&d, `	case %d:
 		if t.Kind == "lex" {
 			return lex(func() sm { return c%04d.NewSM() }, t.Text)
@@ -145,9 +153,12 @@ func main() {
 	}
 `)
 	for i := 0; i < n; i++ {
-		fmt.Fprintf(&d, "\tc%04d.Yield = y\n", i)
+		if !lexOnly[i] {
+			fmt.Fprintf(&d, "\tc%04d.Yield = y\n", i)
+		}
 	}
-	d.WriteString(`	// sequential reference run in the same process
+	d.WriteString(`	_ = y
+	// sequential reference run in the same process
 	want := make([][]string, len(w.Goroutines))
 	for g, ts := range w.Goroutines {
 		for _, t := range ts {
@@ -200,20 +211,43 @@ func genCase(rt *rapid.T, nWork int) *Case {
 		}
 		c.Pkgs = append(c.Pkgs, &Pkg{G: g, OnBounds: i%3 != 2, HasErr: cfggen.HasErr(g)})
 	}
-	plains := make([]*cfgm.Plain, nP)
+	// one or two lexer-only packages with a mode graph (push / pop, nesting)
+	var lexTexts [][][]byte
+	for i, n := 0, ri(rt, 1, 2, "nlexpkg"); i < n; i++ {
+		sp := lexgen.GenSpec(rt, lexgen.Opts{MaxModes: 3, ModeActs: true, Frags: true, ShuffleAct: true, Depth: 2, MaxRules: 4})
+		if lx := loxb.Front1(sp.Lox()); lx.Panic != nil || !lx.OK {
+			continue
+		}
+		c.Pkgs = append(c.Pkgs, &Pkg{S: sp})
+		lexTexts = append(lexTexts, lexgen.Texts(rt, sp, 30))
+	}
+	nAll := len(c.Pkgs)
+	plains := make([]*cfgm.Plain, nAll)
 	for i, p := range c.Pkgs {
-		plains[i] = cfgm.Desugar(p.G)
+		if p.G != nil {
+			plains[i] = cfgm.Desugar(p.G)
+		}
 	}
 	for k := 0; k < nWork; k++ {
 		w := &Workload{MaxProcs: []int{2, 8, 16}[k%3], Yield: []int{0, 1, 3, 7}[ri(rt, 0, 3, "yield")]}
 		nG := ri(rt, 2, 32, "ngor")
-		same := ri(rt, 0, nP-1, "same") // package run by at least two goroutines
+		same := ri(rt, 0, nAll-1, "same") // package run by at least two goroutines
 		for g := 0; g < nG; g++ {
 			var ts []Task
 			for j, nt := 0, ri(rt, 2, 10, "ntask"); j < nt; j++ {
-				pi := ri(rt, 0, nP-1, "pi")
+				pi := ri(rt, 0, nAll-1, "pi")
 				if g < 2 && j == 0 {
 					pi = same
+				}
+				if c.Pkgs[pi].S != nil {
+					tx := lexTexts[pi-nP]
+					if len(tx) == 0 {
+						continue
+					}
+					// lexer packages: the same handful of texts again and again, so that several
+					// instances sit inside pushed modes at the same time
+					ts = append(ts, Task{Pkg: pi, Kind: "lex", Text: tx[ri(rt, 0, min(len(tx)-1, 5), "tx")]})
+					continue
 				}
 				p := plains[pi]
 				if ri(rt, 0, 3, "lex") == 0 {
@@ -229,7 +263,7 @@ func genCase(rt *rapid.T, nWork int) *Case {
 							sb.WriteRune(cfgm.TokChar(ri(rt, 0, len(c.Pkgs[pi].G.Toks)-1, "tk")))
 						}
 					}
-					ts = append(ts, Task{Pkg: pi, Kind: "lex", Text: sb.String()})
+					ts = append(ts, Task{Pkg: pi, Kind: "lex", Text: []byte(sb.String())})
 					continue
 				}
 				w0 := cfggen.StripErr(cfggen.Sentence(rt, p, ri(rt, 2, 7, "b")))
@@ -250,7 +284,13 @@ func genCase(rt *rapid.T, nWork int) *Case {
 
 func evaluate(run *ev.Run, c *Case) string {
 	var files []map[string]string
-	for _, p := range c.Pkgs {
+	lexOnly := map[int]bool{}
+	for i, p := range c.Pkgs {
+		if p.S != nil {
+			lexOnly[i] = true
+			files = append(files, map[string]string{"g.lox": p.S.Lox(), "user.go": forge.LexStub, "sm.go": smGo})
+			continue
+		}
 		files = append(files, map[string]string{"g.lox": p.G.Lox(), "user.go": pgo.UserGo(p.G, pgo.Opts{OnBounds: p.OnBounds}), "sm.go": smGo})
 	}
 	b, err := forge.GenerateOnly(files, true, false)
@@ -263,7 +303,7 @@ func evaluate(run *ev.Run, c *Case) string {
 			return fmt.Sprintf("package %d: generator failed: %s%v", i, p.Gen.Diag, p.Gen.Panic)
 		}
 	}
-	bin, err := b.Build(driverMain(len(c.Pkgs)), true)
+	bin, err := b.Build(driverMain(len(c.Pkgs), lexOnly), true)
 	if err != nil {
 		if be, ok := err.(*forge.BuildError); ok && strings.Contains(be.Output, ".gen.go") && !strings.Contains(be.Output, "drv/main.go") {
 			return "generated code does not compile: " + be.Output
@@ -285,6 +325,9 @@ func evaluate(run *ev.Run, c *Case) string {
 				}
 				if c.Pkgs[t.Pkg].HasErr && t.Kind == "parse" {
 					recov = true
+				}
+				if c.Pkgs[t.Pkg].S != nil {
+					run.Class("tasks:lexer-with-modes")
 				}
 			}
 		}
@@ -331,7 +374,7 @@ func head(s string, n int) string {
 func TestC18(t *testing.T) {
 	run := ev.Start("C18")
 	defer run.Finish(t)
-	run.Rule = "sets of 2-4 generated packages (different grammars; every second one with @error recovery, two of three with _onBounds; each with its generated lexer state machine) linked into ONE program built with -race; workloads of 2-32 goroutines released by a barrier, each running 2-10 tasks (parse of a sentence or mutant through the generated parser, or lexing a text through the real simplelexer + generated state machine), at least two goroutines starting on the same package, GOMAXPROCS in {2,8,16}, runtime.Gosched injected at every 1st/3rd/7th ReadToken; " +
+	run.Rule = "sets of 2-4 generated parser packages plus 1-2 lexer-only packages with up to 3 nested modes (push/pop) (different grammars; every second one with @error recovery, two of three with _onBounds; each with its generated lexer state machine) linked into ONE program built with -race; workloads of 2-32 goroutines released by a barrier, each running 2-10 tasks (parse of a sentence or mutant through the generated parser, or lexing a text through the real simplelexer + generated state machine), at least two goroutines starting on the same package, GOMAXPROCS in {2,8,16}, runtime.Gosched injected at every 1st/3rd/7th ReadToken; " +
 		"oracle: no report from the race detector (GORACE=halt_on_error) and every task's result (ok, errors, first blamed token, result tree, event log / token stream) equals the sequential run of the same workload in the same process; " +
 		"non-trivial = workload where >=2 goroutines use the same package, >=2 packages are used and a recovery-capable parser runs; distinct by workload"
 	run.Assumptions = []string{"the schedule is not owned by the harness: assurance rests on the race detector's happens-before analysis plus result comparison on the schedules that happened"}
@@ -370,7 +413,7 @@ func TestC18(t *testing.T) {
 		}
 		run.Class("package-sets")
 		if s == 0 {
-			run.Sample("workload", map[string]any{"packages": len(c.Pkgs), "first-grammar": c.Pkgs[0].G.Lox(), "goroutines": len(c.Workloads[0].Goroutines), "first-tasks": c.Workloads[0].Goroutines[0]})
+			run.Sample("workload", map[string]any{"packages": len(c.Pkgs), "first-grammar": c.Pkgs[0].G.Lox(), "lexer-package": c.Pkgs[len(c.Pkgs)-1].S, "goroutines": len(c.Workloads[0].Goroutines), "first-tasks": c.Workloads[0].Goroutines[0]})
 		}
 		if d := evaluate(run, c); d != "" {
 			report(c, d)
